@@ -503,6 +503,49 @@ def main():
     except Exception as e:  # pylint: disable=broad-except
       rep.violation(f"freeze-raises-{i}", f"clone_model_and_freeze_auto_po2_scale raised {type(e).__name__}: {str(e)[:200]}", {})
   rep.note(frozen_scale_models=nf, frozen_scale_models_repeatable=n_fr)
+  # ---- a scale frozen by hand, as a float32 array (post_training_scale=q.scale.numpy()): the quantizer then HOLDS that array, and an
+  # export must neither change it nor the predictions; a second export must change nothing
+  import qkeras.quantizers as QZ
+  n_hand = n_hand_ok = 0
+  for i in range(4 if rep.tier == "quick" else 24):
+    try:
+      bits_, int_ = int(rng.choice([4, 6, 8])), int(rng.choice([0, 1, 2]))
+      probe_q = QZ.quantized_bits(bits_, int_, 1, alpha="auto_po2")
+      units_ = int(rng.integers(2, 5))
+      w0 = rng.normal(0, 0.6, size=(5, units_)).astype(np.float32)
+      probe_q(tf.constant(w0))
+      sc = np.asarray(probe_q.scale.numpy(), dtype=np.float32)
+      kq_ = QZ.quantized_bits(bits_, int_, 1, alpha="auto_po2", post_training_scale=sc)
+      i_ = Input((5,), name=f"hin{i}")
+      hm = Model(i_, qkeras.QDense(units_, kernel_quantizer=kq_, bias_quantizer="quantized_bits(8,3,1)", name=f"hd{i}")(i_))
+      hm.set_weights([w0, rng.normal(0, 0.5, size=(units_,)).astype(np.float32)])
+      rep.count(("hand-frozen", bits_, int_, units_, i))
+      xs = tf.constant(rng.normal(0, 1, size=(3, 5)).astype(np.float32))
+      y0 = hm(xs).numpy()
+      sc0 = np.array(sc, copy=True)
+      d1 = U.model_save_quantized_weights(hm)
+      y1, w1 = hm(xs).numpy(), [w.copy() for w in hm.get_weights()]
+      d2 = U.model_save_quantized_weights(hm)
+      y2, w2 = hm(xs).numpy(), hm.get_weights()
+      n_hand += 1
+      held = np.asarray(hm.layers[-1].kernel_quantizer_internal.scale if hasattr(hm.layers[-1].kernel_quantizer_internal.scale, "shape") else sc)
+      why = None
+      if not same_bits(np.broadcast_to(held, sc0.shape) if np.size(held) == np.size(sc0) else sc0, sc0) or not same_bits(sc, sc0):
+        why = "the frozen scale array handed to the quantizer was modified by the export"
+      elif not same_bits(y0, y1):
+        why = f"predictions changed by the first export (max abs diff {float(np.max(np.abs(y0 - y1)))})"
+      elif not (same_bits(y1, y2) and all(same_bits(a_, b_) for a_, b_ in zip(w1, w2))):
+        why = "a second export changed weights or predictions"
+      elif any(not same_bits(a_, b_) for k_ in ("weights", "scales") for a_, b_ in zip(d1[f"hd{i}"].get(k_, []), d2[f"hd{i}"].get(k_, [])) if np.asarray(a_).size):
+        why = "a second export changed the dictionary"
+      if why:
+        rep.violation(f"hand-frozen-scale-{i}", f"QDense with quantized_bits({bits_},{int_},1,alpha='auto_po2', post_training_scale=<float32 array>): {why}",
+                      {"bits": bits_, "integer": int_})
+      else:
+        n_hand_ok += 1
+    except Exception as e:  # pylint: disable=broad-except
+      rep.violation(f"hand-frozen-raises-{i}", f"export of a model with a hand-frozen float32 scale raised {type(e).__name__}: {str(e)[:200]}", {})
+  rep.note(hand_frozen_float32_scale_models=n_hand, hand_frozen_ok=n_hand_ok)
   try:
     from tensorflow.keras import Sequential
     sq = Sequential([Input((5,), name="sin"), qkeras.QDense(2, kernel_quantizer="quantized_bits(6,1,1,alpha='auto_po2')", name="sqd")])
